@@ -1,3 +1,4 @@
+mod codec;
 mod http;
 mod sched;
 mod storegen;
@@ -90,6 +91,12 @@ fn main() {
                 }
             }
             println!("{{\"behaviours\": {n}, \"events\": {nev}}}");
+        }
+        "codec-run" => {
+            let inp = arg_val(&args, "--in").expect("--in");
+            let out = arg_val(&args, "--out").expect("--out");
+            let seed: u64 = arg_val(&args, "--seed").map(|s| s.parse().unwrap()).unwrap_or(0);
+            codec::run(&inp, &out, seed);
         }
         "sched-one" => {
             let mut line = String::new();
